@@ -97,10 +97,22 @@ uint32_t ir_ffppx(char* fptr_, uint32_t datatype, char* fpix, uint64_t nelem, ch
     h->data[off + i] = v; }
   if (off + nelem > h->nwritten) h->nwritten = off + nelem;
   return 0; }
-uint32_t ir_ffgpxv(char* fptr_, uint32_t datatype, char* fpix, uint64_t nelem, char* nulval, char* array, char* anynul, char* status_){ (void)nulval; ENTER(f); struct cf_hdu* h = &f->hdu[f->cur]; uint64_t off = lin_index(h, (long*)fpix);
+uint32_t ir_ffgpxv(char* fptr_, uint32_t datatype, char* fpix, uint64_t nelem, char* nulval, char* array, char* anynul, char* status_){ ENTER(f); struct cf_hdu* h = &f->hdu[f->cur]; uint64_t off = lin_index(h, (long*)fpix);
   if (anynul) *(int*)anynul = 0; if (off + nelem > h->ndata) { *st = CF_BAD_PIX_NUM; return (uint32_t)*st; }
   if (off + nelem > h->nwritten) { *st = CF_END_OF_FILE; return (uint32_t)*st; }      /* data unit shorter than the header promises: cfitsio reports end of file */
+  /* a non-zero null value switches on cfitsio's null-checking conversion, which does not return every bit pattern unchanged
+   * (infinities become the null value, denormals and -0 become +0): the pixel handed back is then some function of the stored
+   * one and of the null value, not the stored one */
+  int nullcheck = nulval && (datatype == CF_TFLOAT ? *(vr32*)nulval != 0 : *(vr64*)nulval != 0);
   for (uint64_t i = 0; i < nelem; i++) { vr64 v = h->data[off + i];
+#ifdef VR_IEEE
+    /* cfitsio (fffr4r4 / fffr8r8 with nullcheck 1): exponent all ones (NaN, infinity) -> the null value, exponent zero
+     * (denormal, -0) -> +0 */
+    if (nullcheck) { if (h->bitpix == CF_FLOAT_IMG) { uint32_t b = (uint32_t)v, e = (b >> 23) & 0xff; if (e == 0xff) v = datatype == CF_TFLOAT ? (vr64)*(vr32*)nulval : (vr64)vr_fptrunc(*(vr64*)nulval); else if (e == 0) v = 0; }
+                     else { uint64_t e = (v >> 52) & 0x7ff; if (e == 0x7ff) v = datatype == CF_TDOUBLE ? *(vr64*)nulval : vr_fpext(*(vr32*)nulval); else if (e == 0) v = 0; } }
+#else
+    if (nullcheck) v = vr_frem64(v, datatype == CF_TFLOAT ? (vr64)*(vr32*)nulval : *(vr64*)nulval);     /* some function of the stored value: not the stored value */
+#endif
     if (datatype == CF_TFLOAT) ((vr32*)array)[i] = h->bitpix == CF_DOUBLE_IMG ? vr_fptrunc(v) : (vr32)v;
     else if (datatype == CF_TDOUBLE) ((vr64*)array)[i] = h->bitpix == CF_FLOAT_IMG ? vr_fpext((vr32)v) : v;
     else { *st = CF_BAD_DATATYPE; return (uint32_t)*st; } }
